@@ -116,7 +116,9 @@ impl HG {
     }
 }
 
-const PROBE_VARS: &[&str] = &["VE1", "VE2", "VS1", "vs_lower", "VA1", "VH1", "VI1", INHERITED, "VS_CFG"];
+const PROBE_VARS: &[&str] = &[
+    "VE1", "VE2", "VS1", "vs_lower", "VA1", "VH1", "VI1", INHERITED, "VS_CFG", "UIDX", "PPID2", "x1", "_under", "BASH_MINE", "LINENO_COPY", "SCRUT_TESTX",
+];
 
 fn probe_all() -> String {
     let mut s = String::new();
@@ -147,7 +149,7 @@ fn gen_history(seed: u64, idx: usize, steer_around_known: bool) -> History {
     let mut cfg_touched = false;
     for k in 0..n {
         let mut env: BTreeMap<String, String> = BTreeMap::new();
-        let (tag, code): (String, String) = match g.below(33) {
+        let (tag, code): (String, String) = match g.below(39) {
             0 => ("export-define".into(), format!("export VE1={}", g.value())),
             1 => ("export-modify".into(), "export VE1=\"${VE1:-none} more\"".into()),
             2 => ("export-unset".into(), "unset VE1".into()),
@@ -213,7 +215,17 @@ fn gen_history(seed: u64, idx: usize, steer_around_known: bool) -> History {
                 cfg_touched = true;
                 ("cfg-env-modify".into(), "VS_CFG=\"${VS_CFG:-none}+\"".into())
             }
-            _ => ("use".into(), "f1 arg 2>/dev/null; a1 2>/dev/null; echo \"${VS1:-} ${VE1:-} ${VA1[*]:-}\"".into()),
+            32 => {
+                // names that merely resemble the ones scrut excludes from the carried state
+                let name = *g.pick(&["UIDX", "PPID2", "x1", "_under", "BASH_MINE", "LINENO_COPY", "SCRUT_TESTX"]);
+                let exp = if g.below(2) == 0 { "export " } else { "" };
+                ("odd-name-define".into(), format!("{}{}={}", exp, name, g.value()))
+            }
+            33 => ("value-looks-like-declare".into(), format!("VS1={}", g.pick(&["'declare -r fake=1'", "$'one\\ndeclare -r fake=2'", "'-r'", "'declare -x SCRUT_TEST=zzz'"]))),
+            34 => ("alias-of-alias".into(), "alias a1='echo inner'; alias a2='a1 outer'".into()),
+            35 => ("dirstack-deep".into(), "pushd 'd 1' >/dev/null 2>&1; pushd ../d2 >/dev/null 2>&1; pushd inner >/dev/null 2>&1".into()),
+            36 => ("func-constructs".into(), "f1() { local -a arr=(1 \"two words\"); case \"$1\" in a|b) echo ab;; *) echo \"other ${arr[1]}\";; esac; cat <<EOT\n  heredoc $1 line\nEOT\n}".into()),
+            _ => ("use".into(), "f1 arg 2>/dev/null; a1 2>/dev/null; a2 2>/dev/null; echo \"${VS1:-} ${VE1:-} ${VA1[*]:-}\"".into()),
         };
         let end = match g.below(12) {
             0 => format!("exit:{}", g.pick(&[0, 1, 3, 42])),
